@@ -263,6 +263,9 @@ fn check_pair(sub: &str, l: &J, lt: &str, r: &J, rt: &str, st: &mut Stats) -> Ca
     let routes = [
         ("fields", build_expr("l", "r"), doc.clone()),
         ("literals", build_expr(&spell_backtick(lt), &spell_backtick(rt)), "0".to_string()),
+        ("literal-field", build_expr(&spell_backtick(lt), "r"), doc.clone()),
+        ("field-literal", build_expr("l", &spell_backtick(rt)), doc.clone()),
+        ("elements", build_expr("a[0]", "a[-1]"), format!("{{\"a\":[{},{}]}}", lt, rt)),
     ];
     for (route, expr, d) in routes.iter() {
         st.eval();
@@ -342,8 +345,25 @@ fn has_near_tie(l: &J, r: &J) -> bool {
 /// iff `b > a`, ordering is boolean exactly for number pairs.
 fn laws_only(sub: &str, lt: &str, rt: &str, both_numbers: bool, st: &mut Stats) -> CaseResult {
     let doc = format!("{{\"l\":{},\"r\":{}}}", lt, rt);
-    let routes = [("fields", build_expr("l", "r"), doc.clone()), ("literals", build_expr(&spell_backtick(lt), &spell_backtick(rt)), "0".to_string())];
+    let routes = [
+        ("fields", build_expr("l", "r"), doc.clone()),
+        ("literals", build_expr(&spell_backtick(lt), &spell_backtick(rt)), "0".to_string()),
+        ("literal-field", build_expr(&spell_backtick(lt), "r"), doc.clone()),
+        ("field-literal", build_expr("l", &spell_backtick(rt)), doc.clone()),
+        // both operands are the very same node of the document
+        ("same-node", build_expr("l", "l"), doc.clone()),
+        // (a multi-select on a null current node is null, so `@` is only used on other values)
+        ("same-node-current", build_expr("@", "@"), if rt.trim() == "null" { "[null]".to_string() } else { rt.to_string() }),
+        ("same-element", build_expr("a[0]", "a[-1]"), format!("{{\"a\":[{}]}}", lt)),
+    ];
+    let is_num = |t: &str| matches!(J::parse(t), Ok(J::Num(_)));
+    let (l_num, r_num) = (is_num(lt), is_num(rt));
     for (route, expr, d) in routes.iter() {
+        let both_numbers = match *route {
+            "same-node" | "same-element" => l_num,
+            "same-node-current" => r_num,
+            _ => both_numbers && l_num && r_num,
+        };
         st.eval();
         let case = json!({"l": lt, "r": rt, "route": route, "expression": expr, "document": d});
         let g = match search_text(expr, d) {
